@@ -4,6 +4,8 @@ import (
 	"fmt"
 	"math/rand"
 	"strings"
+
+	"github.com/semihalev/twig"
 )
 
 // C14 — template length and tag position do not change how a template is read.
@@ -91,6 +93,27 @@ func runC14(e *Env) error {
 	if ferr != nil {
 		return ferr
 	}
+	// (a2) every tag whose content is a string of length ≤ 3 over {dash, space, letter, quote}: the empty and
+	// dash-only tags ({{-}}, {%--%}, {#-#}) sit at the edge of the delimiter arithmetic
+	for _, src := range tagEdgeCorpus() {
+		for _, wsc := range []bool{false, true} {
+			if ok, err := compareScan(e, src, wsc, "e:"); err != nil {
+				return err
+			} else if !ok {
+				return nil
+			}
+		}
+	}
+	// (a3) token counts around the powers of two (the token buffer's growth steps): dashes must still trim
+	for _, total := range tokenCountTargets(e.Thorough()) {
+		src := sourceWithTokens(e.Rng, total)
+		if ok, err := compareScan(e, src, true, "n:"); err != nil {
+			return err
+		} else if !ok {
+			return nil
+		}
+		r.Hit("token-count-boundary")
+	}
 	r.Exhaustive = false // the exhaustive part is (a) only; (b) and (c) are sampled
 	r.Note(fmt.Sprintf("exhaustive over alphabet of %d letters to length %d", len(scanAlphabet), depth))
 	if r.Full() {
@@ -121,7 +144,146 @@ func runC14(e *Env) error {
 		return nil
 	}
 	// (c) padding
-	return padOracle(e)
+	if err := padOracle(e); err != nil {
+		return err
+	}
+	// (d) long literal text with multi-byte characters around the 32 KiB / 64 KiB buffer sizes comes out unchanged
+	bigTextOracle(e)
+	return nil
+}
+
+// tagEdgeCorpus: opener + content + closer for every content of length ≤ 3 over {-, space, a, "}, bare and
+// embedded in text.
+func tagEdgeCorpus() []string {
+	var out []string
+	pairs := [][2]string{{"{{", "}}"}, {"{%", "%}"}, {"{#", "#}"}, {"{{", "%}"}, {"{%", "}}"}}
+	allStrings([]string{"-", " ", "a", "\""}, 3, func(in string) bool {
+		for _, p := range pairs {
+			out = append(out, p[0]+in+p[1], "x "+p[0]+in+p[1]+" y")
+		}
+		return true
+	})
+	return out
+}
+
+func tokenCountTargets(thorough bool) []int {
+	var ts []int
+	for _, c := range []int{32, 64, 128, 256, 512, 1024, 2048} {
+		if c > 600 && !thorough {
+			break
+		}
+		for d := -3; d <= 3; d++ {
+			ts = append(ts, c+d)
+		}
+	}
+	return ts
+}
+
+// sourceWithTokens builds a template whose token stream has exactly `total` tokens (EOF included): text tokens
+// (1 each) and print tags with random dashes (3 each).
+func sourceWithTokens(rg *rand.Rand, total int) string {
+	left := total - 1
+	if left < 0 {
+		left = 0
+	}
+	tags, texts := left/3, left%3
+	for k := rg.Intn(tags/4 + 1); k > 0 && texts+3 <= tags; k-- {
+		tags--
+		texts += 3
+	}
+	if texts > tags+1 {
+		texts = tags + 1 // only for total ≤ 3
+	}
+	gaps := rg.Perm(tags + 1)[:texts]
+	isText := map[int]bool{}
+	for _, g := range gaps {
+		isText[g] = true
+	}
+	var sb strings.Builder
+	for i := 0; i <= tags; i++ {
+		if isText[i] {
+			sb.WriteString(pick(rg, []string{"  t  ", " \n ", "x", "  "}))
+		}
+		if i < tags {
+			sb.WriteString("{{" + pick(rg, []string{"", "-"}) + " a " + pick(rg, []string{"", "-"}) + "}}")
+		}
+	}
+	return sb.String()
+}
+
+type plainWriter struct{ b []byte }
+
+func (p *plainWriter) Write(x []byte) (int, error) { p.b = append(p.b, x...); return len(x), nil }
+
+// bigTextOracle: a template of literal text (optionally with one print tag in the middle) is rendered to itself,
+// through Render and through RenderTo into a writer that has only Write.
+func bigTextOracle(e *Env) {
+	r := e.Rep
+	fillers := []string{"é", "世", "😀", "aé", "\u2028"}
+	sizes := []int{32768, 65536, 98304}
+	if e.Thorough() {
+		sizes = append(sizes, 4096, 16384, 131072, 262144)
+	}
+	for _, size := range sizes {
+		for _, f := range fillers {
+			for shift := 0; shift < 5; shift++ {
+				if r.Full() {
+					return
+				}
+				text := strings.Repeat("a", shift) + strings.Repeat(f, (size+40)/len(f))
+				for _, withTag := range []bool{false, true} {
+					src, want := text, text
+					if withTag {
+						src, want = text+"{{ v }}"+text, text+"V"+text
+					}
+					key := fmt.Sprintf("bigtext:%d:%q:%d:%v", size, f, shift, withTag)
+					res := guarded(func() (string, error) {
+						eng := twig.New()
+						if err := eng.RegisterString("big", src); err != nil {
+							return "", err
+						}
+						out, err := eng.Render("big", map[string]interface{}{"v": "V"})
+						if err != nil {
+							return "", err
+						}
+						if out != want {
+							return "", fmt.Errorf("RENDER-DIFF at byte %d of %d", firstDiff(out, want), len(want))
+						}
+						pw := &plainWriter{}
+						if err := eng.RenderTo(pw, "big", map[string]interface{}{"v": "V"}); err != nil {
+							return "", err
+						}
+						if string(pw.b) != want {
+							return "", fmt.Errorf("RENDERTO-DIFF at byte %d of %d", firstDiff(string(pw.b), want), len(want))
+						}
+						return "ok", nil
+					})
+					r.Seen(key, true)
+					r.Hit("bigtext")
+					if res.Err != nil || res.Class != "" {
+						if r.Violate(Violation{Key: "long-text-changed", What: fmt.Sprintf("literal text of %d bytes (%q repeated, shifted by %d, tag in the middle: %v) does not come out unchanged: %v %s", len(src), f, shift, withTag, res.Err, res.Class),
+							Broken: "theorem C14_padding / C14_text_passthrough no longer describes the code (implementation-only oracle)",
+							Replay: map[string]any{"kind": "bigtext", "filler_hex": hx(f), "shift": shift, "size": size, "with_tag": withTag, "err": fmt.Sprint(res.Err), "class": res.Class}}) {
+							return
+						}
+					}
+				}
+			}
+		}
+	}
+}
+
+func firstDiff(a, b string) int {
+	n := len(a)
+	if len(b) < n {
+		n = len(b)
+	}
+	for i := 0; i < n; i++ {
+		if a[i] != b[i] {
+			return i
+		}
+	}
+	return n
 }
 
 // genTagSoup: literal chunks interleaved with well-formed tags of every delimiter flavour.
